@@ -338,6 +338,14 @@ def run(chk, P):
     chk.floor('R07.7', 1)
     r07_8(chk, P)
     chk.floor('R07.8', 2)
+    chk.rule('R07.9', 'the data offsets the seeks start from are the links\' first audio pages: every value stored into vf->dataoffsets[] '
+             'that derives from a read of the stream position vf->offset sees the header fetch of that link as the last writer of '
+             'the position, not a later page fetch (the first-page special case of ov_pcm_seek_page compares the bisection result '
+             'with dataoffsets[link]; an offset one page late makes the seek deliver audio one page after the position it reports) '
+             '-- same obligations as R09.8, restricted to the dataoffsets table')
+    from rules import c09
+    c09.r09_8(common.Proxy(chk, 'R07.9', only=lambda fn, cons: cons.startswith('dataoffsets-')), P, E)
+    chk.floor('R07.9', 2)
     import frames
     frames.c07(chk, P)
     chk.trusted += ['clang 14 front end', 'K3 effect table', 'interval abstraction of return values']
